@@ -207,8 +207,10 @@ def _points_to_const(t):
 def rule_assert_purity(progs, fixture=False):
     r = RuleResult("R-C19-1", "no assert condition has a side effect: no assignment, ++/--, new/delete, and "
                    "every function it calls is pure", floor=0 if fixture else 60)
+    from ..exc import MayThrow, LIB_THROWERS
     for prog in progs:
         pur = Purity(prog)
+        mt = MayThrow(prog)
         for fn in prog.functions.values():
             k = 0
             for cnode, cond in assert_sites(fn):
@@ -231,6 +233,14 @@ def rule_assert_purity(progs, fixture=False):
                         ok, why = pur.callee_pure(fn, n)
                         if not ok:
                             bad = "calls %s, which is not pure: %s" % (notpl(n.get("q") or "?"), why)
+                        else:
+                            q = notpl(n.get("q") or "")
+                            thrown = set(LIB_THROWERS.get(q, ()))
+                            for t in prog.call_targets(fn, n):
+                                thrown |= mt.sets.get(t.uid, set())
+                            if thrown:
+                                bad = "calls %s, which can throw %s: the assertion-enabled build then leaves by an " \
+                                      "exception where the NDEBUG build carries on" % (q, ", ".join(sorted(thrown)))
                     if bad:
                         break
                 r.add(key, fn.loc(cnode), bad is None,
